@@ -7,6 +7,7 @@ import DuckModel.Spec.Render
 import DuckModel.Scripted
 import DuckModel.Registry
 import DuckModel.Sdk.Condition
+import DuckModel.Spec.Template
 
 namespace Duck.Driver
 open Duck Duck.Wire
@@ -48,6 +49,31 @@ def sortStrings (l : List String) : List String := (l.toArray.qsort (· < ·)).t
 def encReg (r : Reg) : String :=
   "CMDS " ++ ",".intercalate (sortStrings (r.commands.map fun (k, c) => encStr k ++ ">" ++ encSpec c)) ++
   " ALIASES " ++ ",".intercalate (sortStrings (r.aliases.map fun (k, v) => encStr k ++ ">" ++ encStr v))
+
+inductive TArg
+  | tmpl (t : List Spec.Seg)
+  | spread (n : Str)
+
+def decSeg (t : String) : Option Spec.Seg :=
+  match t.toList with
+  | 'L' :: r => (decStr (String.ofList r)).map .lit
+  | 'V' :: r => (decStr (String.ofList r)).map .var
+  | 'E' :: r => (decStr (String.ofList r)).map .escVar
+  | _ => none
+
+def decTArg (t : String) : Option TArg :=
+  match t.toList with
+  | 'S' :: r => (decStr (String.ofList r)).map .spread
+  | _ => if t = "T" then some (.tmpl []) else ((t.splitOn "+").mapM decSeg).map .tmpl
+
+def segOKb : Spec.Seg → Bool
+  | .lit t => t.all fun c => c != '$' && c != '%' && c != '\\'
+  | .var n => n.all fun c => c != '}' && c != ' ' && c != '=' && c != '\t' && c != '\r' && c != '\n'
+  | .escVar n => n.all fun c => c != '}' && c != ' ' && c != '=' && c != '\t' && c != '\r' && c != '\n' &&
+      c != '$' && c != '%' && c != '\\'
+
+def keyOKb (n : Str) : Bool :=
+  n.all fun c => c != '}' && c != ' ' && c != '=' && c != '\t' && c != '\r' && c != '\n'
 
 /-- C01 item: label/output/command/args/lead/trail/afterLabel/eqBefore/eqAfter/argch/comment/crlf -/
 def decItem (t : String) : Option (Spec.Choices × ScriptInstr × Bool) :=
@@ -119,6 +145,25 @@ def handle (toks : List String) : String :=
     match decOpt v with
     | some v => if isTrue v then "1" else "0"
     | none => bad
+  | ["c02", vars, targs] =>
+    match decVars vars, (targs.splitOn ",").mapM decTArg with
+    | some vars, some targs =>
+      let written := targs.map fun a => match a with
+        | .tmpl t => Spec.renderTemplate t
+        | .spread n => Spec.renderSpread n
+      let expected := targs.flatMap fun a => match a with
+        | .tmpl t => [Spec.tmplValue vars t]
+        | .spread n => Spec.words ((Vars.get vars n).getD [])
+      let dom := targs.all fun a => match a with
+        | .tmpl t => t.all segOKb
+        | .spread n => keyOKb n && ((Vars.get vars n).getD []).all fun c => c != '"' && c != '#'
+      encList written ++ " " ++ (if dom then "DOM" else "NODOM") ++ " " ++ encList expected ++ " " ++
+        encList (bind vars (some written))
+    | _, _ => bad
+  | ["bind", vars, args] =>
+    match decVars vars, decList args with
+    | some vars, some args => encList (bind vars (some args))
+    | _, _ => bad
   | ["ws", n] =>
     match n.toNat? with
     | some k => if isWs (Char.ofNat k) then "1" else "0"
